@@ -10,7 +10,7 @@ import (
 // for failure signals, and nothing in data that no service returned.
 
 type vMut struct {
-	kind    int // 0 null, 1 scalar, 2 [], 3 [5], 4 {} , 5 wrap in list, 6 unwrap first element, 7 delete key
+	kind    int // 0 null, 1 scalar, 2 [], 3 [5], 4 {} , 5 wrap in list, 6 unwrap first element, 7 delete key, 8/9 errors: [null]
 	depth   int
 	applied bool
 	signal  bool // the mutilation is a failure signal (node missing or mistyped, data missing)
@@ -116,7 +116,14 @@ func vMutHook(url string, call int, resps []map[string]interface{}) {
 		if i >= len(resps) {
 			i = len(resps) - 1
 		}
-		if vMutDropData {
+		if vMutation.kind >= 8 {
+			// a non-empty errors list whose entries are null (next to the data, or instead of it)
+			resps[i]["errors"] = []interface{}{nil}
+			if vMutation.kind == 9 {
+				resps[i]["data"] = nil
+			}
+			vMutation.applied, vMutation.signal = true, true
+		} else if vMutDropData {
 			delete(resps[i], "data")
 			vMutation.applied, vMutation.signal = true, true
 		} else if d, ok := resps[i]["data"].(map[string]interface{}); ok {
@@ -143,7 +150,10 @@ func VerifMutilatedAnswers() {
 	f := vNewHTTPFed(w, 3000, nil, vSA, vSB)
 	vMutHookFn = vMutHook
 	vServed = map[string]bool{}
-	vMutation = &vMut{kind: verifChoice("kind", 8), depth: verifChoice("depth", 3)}
+	vMutation = &vMut{kind: verifChoice("kind", 10), depth: verifChoice("depth", 3)}
+	if vMutation.kind >= 8 {
+		verifAssume(vMutation.depth == 0)
+	}
 	vMutURL = []string{"svc0", "svc1"}[verifChoice("svc", 2)]
 	vMutCall = verifChoice("call", 2)
 	vMutElem = verifChoice("elem", 2)
